@@ -64,7 +64,7 @@ TABLE = {
     "C09": ("Lean theorem T_C09 (partial): name, visibility, generics, supertraits, where clause and every method (attributes and "
             "signature, modulo the documented async rewrite) of an entraited trait are re-emitted unchanged and only mock "
             "derivations are added.",
-            "Known findings C09.attrs / C09.unsafe / C09.default / C09.assoc (dropped by the unchanged macro) are excluded by their class predicates.",
+            "Known findings C09.unsafe / C09.default / C09.assoc (dropped by the macro; kernel-checked witness theorems) are tolerated only inside their class predicates; every attribute of the trait is kept (attrs_kept, since fix 58615e0).",
             "Lean 4 theorem + differential correspondence", "5/C09"),
     "C10": ("Lean theorem T_C10: for every item and every option set and macro variant, the mock derivations on the generated or "
             "re-emitted trait are exactly: unimock iff enabled (and mock_api given for fn/mod), automock iff mockall = true, each "
